@@ -165,7 +165,7 @@ def C14(tier, seed):
     for tk in ("spl", "t22"):
         drivers += hist_jobs(f"hist_af_{tk}_", seed, 4 if tier == "quick" else 8, 5 if tier == "quick" else 40, 200 if tier == "quick" else 300, tk, ["--adaptive", "1"])
     drivers += matrix_jobs("matrix_", tier, seed, "0", "0", 0, 0, shards_q=1, shards_t=1)
-    return {"active": ["C14"], "drivers": drivers, "models": [],
+    return {"active": ["C14"], "drivers": drivers, "models": [mc("MC_AdaptiveFee", tier, "MC_AdaptiveFee")],
             "must_exercise": {"swap": 50, "swap_v2": 50},
             "explanation": "adaptive-fee pools with random valid constants: reference update (filter / decay / one-hour reset), accumulator = min(volRef + |ref - group|*10^4, max), "
                            "rate = min(static + ceil(factor*(acc*groupSize)^2/10^13), 10%) required for EVERY tick group each recorded step's price segment spans (declarative, independent "
